@@ -1618,8 +1618,9 @@ impl ArchiveBuilder {
 
                 // V3 fields
                 writer.write_u64_le(params.archive_size)?; // archive_size_64
-                writer.write_u64_le(params.het_table_pos.unwrap_or(0))?; // het_table_pos
+                // The header stores the BET table position first (offset 0x34), then HET (0x3C)
                 writer.write_u64_le(params.bet_table_pos.unwrap_or(0))?; // bet_table_pos
+                writer.write_u64_le(params.het_table_pos.unwrap_or(0))?; // het_table_pos
             }
             FormatVersion::V4 => {
                 // V2 fields
@@ -1629,8 +1630,9 @@ impl ArchiveBuilder {
 
                 // V3 fields
                 writer.write_u64_le(params.archive_size)?; // archive_size_64
-                writer.write_u64_le(params.het_table_pos.unwrap_or(0))?; // het_table_pos
+                // The header stores the BET table position first (offset 0x34), then HET (0x3C)
                 writer.write_u64_le(params.bet_table_pos.unwrap_or(0))?; // bet_table_pos
+                writer.write_u64_le(params.het_table_pos.unwrap_or(0))?; // het_table_pos
 
                 // V4 fields
                 if let Some(v4_data) = &params.v4_data {
